@@ -76,7 +76,7 @@ def setup(ctx):
         ctx.ensure(detector, name, cond)
 
 
-TILT = ["none", "x", "y", "z", "all", "all"]
+TILT = ["none", "x", "y", "z", "all", "all", "tiny"]
 OFFS = ["zero", "x", "generic", "generic"]
 
 
@@ -88,6 +88,9 @@ def workload(ctx):
         tilt = rng.uniform(-0.3, 0.3, 3)
         if ts == "none":
             tilt[:] = 0
+        elif ts == "tiny":
+            # milli- to micro-radian tilts: a well aligned detector (second-order terms such as 1-cos are ~1e-12..1e-6 here)
+            tilt = rng.choice([-1, 1], 3) * 10 ** rng.uniform(-6, -2, 3) * (rng.random(3) < 0.8)
         elif ts in "xyz":
             keep = "xyz".index(ts)
             tilt = np.array([tilt[j] if j == keep else 0.0 for j in range(3)])
